@@ -1465,6 +1465,20 @@ class PolyhedralTermList(TermList):  # noqa: WPS338
         if terms_added < num_vars_to_elim:
             raise ValueError("Context has insufficient information")
 
+        # Solving the selected rows as equalities is only justified if the part of the term to be
+        # eliminated is a combination of those rows whose multipliers all have the sign required by
+        # the direction of the transformation: nonnegative to refine, nonpositive to relax.
+        row_matrix = np.array([[row.get_coefficient(var) for var in forbidden_vars] for row in matrix_row_terms])
+        target = np.array([term.get_coefficient(var) for var in forbidden_vars])
+        try:
+            multipliers = np.linalg.solve(row_matrix.T, target)
+        except np.linalg.LinAlgError as e:
+            raise ValueError("Active constraints are linearly dependent") from e
+        if not refine:
+            multipliers = -multipliers
+        if np.any(multipliers < -1e-9):  # noqa: WPS432 magic number
+            raise ValueError("Active constraints do not bound the term in the required direction")
+
         return matrix_row_terms, forbidden_vars
 
     @staticmethod
